@@ -13,7 +13,8 @@
 // with SNI = identifier and ALPN "acme-tls/1", dns-01 asks Options.DNS01Lookup.
 //
 // Every request is logged (Requests / Count) with the thumbprint of the account key that signed
-// it and whether it arrived over TLS; Hook can gate a request or inject an ACME problem.
+// it and whether it arrived over TLS; Hook can gate a request or inject an ACME problem (before
+// the request is handled), DropResponse can lose the response of a request that was handled.
 // ES256/ES384 (P-256/P-384) JWS signatures are verified (Options.SkipSignatureCheck turns that
 // off); other algorithms are accepted unverified. Nonces are issued but not checked.
 //
@@ -147,6 +148,10 @@ type CA struct {
 	// Hook, if set, sees every parsed request before it is handled; it may block, and a non-nil
 	// problem is answered instead of handling the request.
 	Hook func(r *Request) *Problem
+	// DropResponse, if set, is asked after a request was handled successfully (its effect — e.g.
+	// the new account row — is in place and logged): true cuts the response body short, so the
+	// client sees an I/O error for a request that took effect (acmez does not retry that).
+	DropResponse func(r *Request) bool
 
 	srv      *httptest.Server
 	mu       sync.Mutex
@@ -432,6 +437,16 @@ func (ca *CA) reply(w http.ResponseWriter, r *Request, status int, v any) {
 	r.Status = status
 	ca.finish(r)
 	w.Header().Set("Content-Type", "application/json")
+	if ca.DropResponse != nil && status < 300 && ca.DropResponse(r) {
+		b, _ := json.Marshal(v)
+		w.Header().Set("Content-Length", fmt.Sprint(len(b)+16))
+		w.WriteHeader(status)
+		w.Write(b[:len(b)/2])
+		if f, ok := w.(http.Flusher); ok {
+			f.Flush() // the status line and headers reach the client; then the body ends early
+		}
+		panic(http.ErrAbortHandler) // drop the connection in the middle of the body
+	}
 	w.WriteHeader(status)
 	json.NewEncoder(w).Encode(v)
 }
